@@ -42,6 +42,12 @@ pub mod mm {
     }
     #[inline]
     pub fn floor(x: f32) -> f32 {
+        // micromath's floor goes through `i32` and saturates. Every f32
+        // with a magnitude of 2^23 or more is an integer already; this
+        // also passes infinities and NaN through unchanged
+        if !(mm::abs(x) < 8_388_608.0) {
+            return x;
+        }
         mm::floor(x)
     }
     #[inline]
